@@ -90,7 +90,7 @@ pub const PER_WORLD: usize = 20;
 pub const DIRECTED: usize = 17;
 
 type Dic<'a> = &'a JapaneseDictionary;
-type Rows = Vec<Vec<(usize, usize, u16, u16, i16, u32, i32, u16, u16)>>;
+type Rows = Vec<Vec<(usize, usize, u16, u16, i16, u32, i32, u16, u32)>>;
 
 #[derive(Clone, Debug)]
 enum Op {
@@ -154,7 +154,7 @@ struct Fresh {
     tables: VerifTables,
     rows: Rows,
     size: usize,
-    eos: Option<(u16, u16, i32)>,
+    eos: Option<(u16, u32, i32)>,
     path_len: Option<usize>,
     /// morphemes after collecting into a fresh list (only when the analysis is Ok)
     toks: Option<Result<Vec<Tok>, String>>,
